@@ -20,6 +20,7 @@ import (
 	"testing/iotest"
 	"time"
 
+	"github.com/notaryproject/notation-core-go/signature"
 	"github.com/notaryproject/notation-go"
 	"github.com/notaryproject/notation-go/registry"
 	"github.com/notaryproject/notation-go/signer"
@@ -57,6 +58,7 @@ type RTObs struct {
 	RetDescOK     bool     `json:"retDescOK"`
 	MetaOK        bool     `json:"metaOK"`
 	BrokenReader  string   `json:"brokenReader"`
+	WrongCMT      string   `json:"wrongCMT"`  // "n/a" | "refused" | "accepted:<type>": the SAME blob offered with a near-miss content media type
 	WrongBlob     string   `json:"wrongBlob"` // "n/a" | "refused" | "accepted": ANOTHER blob offered with the signature (and the metadata the signature carries) // "n/a" | "refused" | "accepted": a blob reader that fails part-way, signature over the part delivered
 	Panic         bool     `json:"panic"`
 	Note          string   `json:"-"`
@@ -141,8 +143,27 @@ func rtMeta(kind string) map[string]string {
 		return map[string]string{"team": "alpha"}
 	case "two":
 		return map[string]string{"team": "alpha", "io.example/stage": ""}
+	case "odd":
+		// keys and values that differ from each other only by surrounding white space or letter case: each is signed, demanded and
+		// reported exactly as written
+		return map[string]string{"team": " alpha", " team": "alpha ", "Team": "Alpha", "io.example/stage ": "\t", "io.example/note": "a  b\nc"}
 	}
 	return nil
+}
+
+// a valid media type that is a different string from mt
+func nearMissCMT(mt string, k uint32) string {
+	base, params, _ := strings.Cut(mt, ";")
+	alts := []string{strings.ToUpper(base[:1]) + base[1:] + func() string {
+		if params != "" {
+			return ";" + params
+		}
+		return ""
+	}(), strings.ToUpper(mt), base + "; version=2", mt + " "}
+	if params != "" {
+		alts = append(alts, base, base+";"+strings.TrimSpace(params), base+";  "+strings.TrimSpace(params))
+	}
+	return alts[int(k)%len(alts)]
 }
 
 func rtBlob(class string, id int) []byte {
@@ -187,7 +208,7 @@ func runRoundTrip() int {
 		ver, bver := rtVerifier(chain, in.Signer == "localTSA")
 		meta := rtMeta(in.Meta)
 		ctx := context.Background()
-		obs := RTObs{PayloadFields: []string{}, BrokenReader: "n/a", WrongBlob: "n/a"}
+		obs := RTObs{PayloadFields: []string{}, BrokenReader: "n/a", WrongBlob: "n/a", WrongCMT: "n/a"}
 		sopts := notation.SignerSignOptions{SignatureMediaType: mediaTypeOf(in.Format), ExpiryDuration: time.Duration(in.Expiry) * time.Second, SigningAgent: "verif-harness/1"}
 		if in.Signer == "localTSA" {
 			// the library's own signing path asks the mini-TSA for an RFC 3161 countersignature
@@ -311,6 +332,37 @@ func runRoundTrip() int {
 					obs.WrongBlob = "refused"
 					if werr == nil {
 						obs.WrongBlob = "accepted"
+					}
+					// a properly signed envelope for ANOTHER blob (the empty one; this blob and a byte more) whose digest is stated in another
+					// algorithm than the one the key implies
+					if in.Signer != "localTSA" {
+						for n, other := range [][]byte{{}, append(append([]byte{}, blob...), '!')} {
+							if bytes.Equal(other, blob) {
+								continue
+							}
+							var algs []digest.Algorithm
+							for _, a := range []digest.Algorithm{digest.SHA256, digest.SHA384, digest.SHA512} {
+								if a != alg {
+									algs = append(algs, a)
+								}
+							}
+							alg2 := algs[(int(mix(*flagSeed, c.ID, "alg2"))+n)%len(algs)]
+							payload, _ := json.Marshal(map[string]interface{}{"targetArtifact": ocispec.Descriptor{MediaType: cmt, Digest: alg2.FromBytes(other), Size: int64(len(other))}})
+							env := SignEnvelope(EnvSpec{Format: in.Format, Chain: chain, Scheme: signature.SigningSchemeX509, SigningTime: time.Now().Add(-time.Minute), Payload: payload})
+							if _, _, oerr := notation.VerifyBlob(ctx, bver, blobReader(blob, mix(*flagSeed, c.ID, "rd")/7), env, notation.VerifyBlobOptions{ContentMediaType: cmt,
+								BlobVerifierVerifyOptions: notation.BlobVerifierVerifyOptions{SignatureMediaType: mediaTypeOf(in.Format), TrustPolicyName: "bp"}}); oerr == nil {
+								obs.WrongBlob = "accepted"
+							}
+						}
+					}
+					// the SAME blob with this signature, but the caller states a content media type that is another string (letter case, a
+					// parameter more or less, white space): a valid media type, yet not the one that was signed
+					near := nearMissCMT(cmt, mix(*flagSeed, c.ID, "cmt"))
+					_, _, merr := notation.VerifyBlob(ctx, bver, bytes.NewReader(blob), sig, notation.VerifyBlobOptions{ContentMediaType: near,
+						BlobVerifierVerifyOptions: notation.BlobVerifierVerifyOptions{SignatureMediaType: mediaTypeOf(in.Format), TrustPolicyName: "bp", UserMetadata: copyMap(meta)}})
+					obs.WrongCMT = "refused"
+					if merr == nil {
+						obs.WrongCMT = "accepted:" + near
 					}
 					// a reader that fails after half of the blob, and a valid signature over exactly that half: not a verified blob
 					if half := blob[:len(blob)/2]; len(half) > 0 {
